@@ -106,7 +106,7 @@ def build(flavor="san", quiet=True):
                 f.write("%s sim_%s\n" % (s, s))
             if flavor == "own":
                 # bulk writes are not seen by trace-stores: route them through the ownership oracle as well
-                for s in ("__asan_memcpy", "__asan_memmove", "__asan_memset", "memcpy", "memmove", "memset", "strncpy"):
+                for s in ("__asan_memcpy", "__asan_memmove", "__asan_memset", "memcpy", "memmove", "memset", "strncpy", "vsnprintf", "snprintf", "strncat"):
                     f.write("%s simown_%s\n" % (s, s.replace("__asan_", "asan_")))
         # ---- private copy of zlib with its allocations behind the seam
         zlib_a = os.path.join(zdir, "libzpriv.a")
